@@ -21,8 +21,10 @@ func ruleConfFuture() *Rule {
 	return &Rule{
 		ID: id,
 		Text: "In applyLoop the success answer for an applied configuration entry goes to the value r.configurationResponseCh had before any call of that iteration that can " +
-			"(transitively) store to r.configurationResponseCh, and carries r.configuration as read after the call that applies the entry.",
-		Floor: 2,
+			"(transitively) store to r.configurationResponseCh, and carries r.configuration as read after the call that applies the entry. " +
+			"Where the slot is answered with an error (leadership ends, Stop) the answer lies on the side of a comparison r.configuration.Index > r.commitIndex, the committed side answers successfully (D42). " +
+			"AddServer's no-change shortcut is reached only where Members[id] == address (D43). appendConfiguration in AddServer/RemoveServer lies behind a voter-exists predicate over the new configuration (D44).",
+		Floor: 6,
 		Run: func(p *Program) []Obligation {
 			const fname = "(*Raft).applyLoop"
 			fn := p.Func(fname)
@@ -249,7 +251,309 @@ func ruleConfFuture() *Rule {
 			if n == 0 {
 				return missing(id, "respond(…, *r.configuration, nil) in "+fname)
 			}
+			out = append(out, confFutureFailures(p, id, chFld, cfgFld)...)
+			out = append(out, confShortcutAndVoters(p, id)...)
 			return out
 		},
 	}
+}
+
+// confFutureFailures: wherever the pending membership future is FAILED (respond on the slot with a non-nil error: the
+// node stops leading, or is stopped), the change it waits for may already be committed — commitLoop moves commitIndex,
+// the apply loop answers the future later. A committed change has taken place; its future must not say it has not
+// (C18: "a membership change that commits while its submitter is still leader resolves that future successfully").
+// So in the function that fails the slot: a comparison r.configuration.Index <= r.commitIndex (either spelling), a
+// success answer on its committed side, and the failing answer unreachable from that side. (D42.)
+func confFutureFailures(p *Program, id string, chFld, cfgFld *types.Var) []Obligation {
+	ciFld, idxFld := p.Field("Raft.commitIndex"), p.Field("Configuration.Index")
+	if ciFld == nil || idxFld == nil {
+		return missing(id, "Raft.commitIndex / Configuration.Index")
+	}
+	loadOf := func(v ssa.Value, fld *types.Var) (*ssa.UnOp, *ssa.FieldAddr) {
+		u, ok := v.(*ssa.UnOp)
+		if !ok || u.Op != token.MUL {
+			return nil, nil
+		}
+		fa, ok := u.X.(*ssa.FieldAddr)
+		if !ok || fieldOf(fa.X.Type(), fa.Field) != fld {
+			return nil, nil
+		}
+		return u, fa
+	}
+	isRespond := func(in ssa.Instruction) *ssa.Call {
+		c, ok := in.(*ssa.Call)
+		if !ok || len(c.Common().Args) != 3 || c.Common().StaticCallee() == nil {
+			return nil
+		}
+		callee := c.Common().StaticCallee()
+		name := callee.Name()
+		if o := callee.Origin(); o != nil {
+			name = o.Name()
+		}
+		if name != "respond" {
+			return nil
+		}
+		if u, _ := loadOf(c.Common().Args[0], chFld); u == nil {
+			return nil
+		}
+		return c
+	}
+	var out []Obligation
+	for _, fn := range p.SortedFuncs() {
+		var fails, succs []*ssa.Call
+		for _, b := range fn.Blocks {
+			for _, in := range b.Instrs {
+				c := isRespond(in)
+				if c == nil {
+					continue
+				}
+				if k, isC := c.Common().Args[2].(*ssa.Const); isC && k.IsNil() {
+					succs = append(succs, c)
+				} else {
+					fails = append(fails, c)
+				}
+			}
+		}
+		if len(fails) == 0 {
+			continue
+		}
+		// the committed side of a comparison of the configuration in force with the commit index
+		var committedSide []*ssa.BasicBlock
+		for _, b := range fn.Blocks {
+			iff, ok := b.Instrs[len(b.Instrs)-1].(*ssa.If)
+			if !ok {
+				continue
+			}
+			bo, ok := iff.Cond.(*ssa.BinOp)
+			if !ok {
+				continue
+			}
+			isIdx := func(v ssa.Value) bool {
+				u, fa := loadOf(v, idxFld)
+				if u == nil {
+					return false
+				}
+				base, _ := loadOf(fa.X, cfgFld)
+				return base != nil
+			}
+			isCI := func(v ssa.Value) bool { u, _ := loadOf(v, ciFld); return u != nil }
+			arm := -1
+			switch {
+			case isIdx(bo.X) && isCI(bo.Y) && bo.Op == token.LEQ, isCI(bo.X) && isIdx(bo.Y) && bo.Op == token.GEQ:
+				arm = 0
+			case isIdx(bo.X) && isCI(bo.Y) && bo.Op == token.GTR, isCI(bo.X) && isIdx(bo.Y) && bo.Op == token.LSS:
+				arm = 1
+			}
+			if arm >= 0 && len(b.Succs[arm].Preds) == 1 {
+				committedSide = append(committedSide, b.Succs[arm])
+			}
+		}
+		for i, f := range fails {
+			ob := Obligation{Rule: id, Construct: "the pending membership future is failed only if its change is not committed, in " + FuncName(fn) + ordSuffix(i+1), Pos: p.InstrPos(f)}
+			switch {
+			case len(committedSide) == 0:
+				ob.Verdict = Violated
+				ob.Detail = "the future of the pending membership change is answered with an error without asking whether the change has been committed (no comparison of r.configuration.Index with r.commitIndex in this function): " +
+					"a leader that steps down or is stopped between the commit and the apply of the entry reports failure for a change that was committed under its leadership and takes effect"
+			default:
+				ok := true
+				for _, t := range committedSide {
+					if t == f.Block() || blockReaches(t, f.Block()) {
+						ok = false
+					}
+					has := false
+					for _, sc := range succs {
+						if t.Dominates(sc.Block()) {
+							has = true
+						}
+					}
+					if !has {
+						ok = false
+					}
+				}
+				if ok {
+					ob.Verdict, ob.Detail = Discharged, "on the side where r.configuration.Index <= r.commitIndex the slot is answered successfully, and the failing answer cannot be reached from there"
+				} else {
+					ob.Verdict = Violated
+					ob.Detail = "the failing answer can be reached although r.configuration.Index <= r.commitIndex was established, or that side has no successful answer: a committed membership change is reported as failed"
+				}
+			}
+			out = append(out, ob)
+		}
+	}
+	if len(out) == 0 {
+		return missing(id, "a failing respond on r.configurationResponseCh")
+	}
+	return out
+}
+
+// confShortcutAndVoters: two clauses on AddServer / RemoveServer.
+//
+// (D43) AddServer answers successfully at once, without appending anything, when the request changes nothing. "Nothing"
+// must include the address: the shortcut's answer is reached only where r.configuration.Members[id] == address has been
+// established (C09: "a configuration future that succeeds reports a committed configuration containing the requested
+// change").
+//
+// (D44) The configuration handed to appendConfiguration has at least one voter: the call lies behind the positive
+// outcome of a predicate over that very configuration that looks at IsVoter. A configuration without voters can never
+// be committed, nor can anything after it, including the change that would add a voter back (C15, C18).
+func confShortcutAndVoters(p *Program, id string) []Obligation {
+	var out []Obligation
+	appendFn := p.Func("(*Raft).appendConfiguration")
+	isVoterFld, membersFld := p.Field("Configuration.IsVoter"), p.Field("Configuration.Members")
+	if appendFn == nil || isVoterFld == nil || membersFld == nil {
+		return missing(id, "(*Raft).appendConfiguration / Configuration.IsVoter / Configuration.Members")
+	}
+	// looksAtVoters: an in-module predicate over a configuration whose body reads IsVoter
+	looksAtVoters := func(f *ssa.Function) bool {
+		if f == nil || !p.InScope[f] || f.Signature.Results().Len() != 1 {
+			return false
+		}
+		if b, ok := f.Signature.Results().At(0).Type().Underlying().(*types.Basic); !ok || b.Kind() != types.Bool {
+			return false
+		}
+		for _, b := range f.Blocks {
+			for _, in := range b.Instrs {
+				if fa, ok := in.(*ssa.FieldAddr); ok && fieldOf(fa.X.Type(), fa.Field) == isVoterFld {
+					return true
+				}
+			}
+		}
+		return false
+	}
+	for _, fname := range []string{"(*Raft).AddServer", "(*Raft).RemoveServer"} {
+		fn := p.Func(fname)
+		if fn == nil {
+			out = append(out, missing(id, fname)...)
+			continue
+		}
+		var appends []*ssa.Call
+		for _, b := range fn.Blocks {
+			for _, in := range b.Instrs {
+				if c, ok := in.(*ssa.Call); ok && c.Common().StaticCallee() == appendFn {
+					appends = append(appends, c)
+				}
+			}
+		}
+		if len(appends) == 0 {
+			out = append(out, missing(id, "call of appendConfiguration in "+fname)...)
+			continue
+		}
+		for _, ap := range appends {
+			ob := Obligation{Rule: id, Construct: "the configuration appended by " + fname + " has a voter", Pos: p.InstrPos(ap)}
+			cfgArg := ap.Common().Args[len(ap.Common().Args)-1]
+			ok := false
+			for _, b := range fn.Blocks {
+				iff, isIf := b.Instrs[len(b.Instrs)-1].(*ssa.If)
+				if !isIf {
+					continue
+				}
+				cond, arm := iff.Cond, 0
+				for {
+					if u, isU := cond.(*ssa.UnOp); isU && u.Op == token.NOT {
+						cond, arm = u.X, 1-arm
+						continue
+					}
+					if bo, isBo := cond.(*ssa.BinOp); isBo && (bo.Op == token.EQL || bo.Op == token.NEQ) {
+						if k, isK := constBool(bo.Y); isK {
+							if k == (bo.Op == token.NEQ) { // x == false, x != true
+								arm = 1 - arm
+							}
+							cond = bo.X
+							continue
+						}
+					}
+					break
+				}
+				c, isCall := cond.(*ssa.Call)
+				if !isCall || !looksAtVoters(c.Common().StaticCallee()) || len(c.Common().Args) == 0 || c.Common().Args[0] != cfgArg {
+					continue
+				}
+				if t := b.Succs[arm]; len(t.Preds) == 1 && t.Dominates(ap.Block()) {
+					ok = true
+				}
+			}
+			if ok {
+				ob.Verdict, ob.Detail = Discharged, "appendConfiguration is reached only where a predicate over the new configuration that reads IsVoter has answered true"
+			} else {
+				ob.Verdict = Violated
+				ob.Detail = "the new configuration is appended (and put in force) without a test that it still has a voting member: removing or demoting the only voter is accepted, " +
+					"hasQuorum() can never be satisfied again, and neither this change nor any later operation or membership change (including one that adds a voter back) can ever be committed"
+			}
+			out = append(out, ob)
+		}
+		if fname != "(*Raft).AddServer" || len(fn.Params) < 3 {
+			continue
+		}
+		// the shortcut: a successful answer that no appendConfiguration precedes
+		idPar, addrPar := fn.Params[1], fn.Params[2]
+		for _, b := range fn.Blocks {
+			for _, in := range b.Instrs {
+				c, isCall := in.(*ssa.Call)
+				if !isCall || len(c.Common().Args) != 3 || c.Common().StaticCallee() == nil {
+					continue
+				}
+				callee := c.Common().StaticCallee()
+				name := callee.Name()
+				if o := callee.Origin(); o != nil {
+					name = o.Name()
+				}
+				if k, isC := c.Common().Args[2].(*ssa.Const); name != "respond" || !isC || !k.IsNil() {
+					continue
+				}
+				preceded := false
+				for _, ap := range appends {
+					if ap.Block() == b || ap.Block().Dominates(b) {
+						preceded = true
+					}
+				}
+				if preceded {
+					continue
+				}
+				ob := Obligation{Rule: id, Construct: "AddServer answers successfully without a change only if the address is unchanged too", Pos: p.InstrPos(c)}
+				ok := false
+				for _, bb := range fn.Blocks {
+					iff, isIf := bb.Instrs[len(bb.Instrs)-1].(*ssa.If)
+					if !isIf {
+						continue
+					}
+					bo, isBo := iff.Cond.(*ssa.BinOp)
+					if !isBo || (bo.Op != token.EQL && bo.Op != token.NEQ) {
+						continue
+					}
+					isMemberAddr := func(v ssa.Value) bool {
+						lk, isLk := v.(*ssa.Lookup)
+						if !isLk || lk.Index != ssa.Value(idPar) {
+							return false
+						}
+						u, isU := lk.X.(*ssa.UnOp)
+						if !isU || u.Op != token.MUL {
+							return false
+						}
+						fa, isFA := u.X.(*ssa.FieldAddr)
+						return isFA && fieldOf(fa.X.Type(), fa.Field) == membersFld
+					}
+					if !((isMemberAddr(bo.X) && bo.Y == ssa.Value(addrPar)) || (isMemberAddr(bo.Y) && bo.X == ssa.Value(addrPar))) {
+						continue
+					}
+					arm := 0
+					if bo.Op == token.NEQ {
+						arm = 1
+					}
+					if t := bb.Succs[arm]; len(t.Preds) == 1 && t.Dominates(b) {
+						ok = true
+					}
+				}
+				if ok {
+					ob.Verdict, ob.Detail = Discharged, "the answer is reached only where r.configuration.Members[id] == address"
+				} else {
+					ob.Verdict = Violated
+					ob.Detail = "AddServer reports success without appending anything although the requested address may differ from the member's current one: " +
+						"the future succeeds with a configuration that does not contain the requested change"
+				}
+				out = append(out, ob)
+			}
+		}
+	}
+	return out
 }
